@@ -15,6 +15,13 @@ Proof.
   destruct (bsh d); [auto|discriminate].
 Qed.
 
+(* a tensor operand with matrix sizes (c columns, rw rows, not 1 x 1: a one-element or (b,1,1) tensor takes the constant path) *)
+Definition rawmatb (r : BT) : bool :=
+  match bsh r with
+  | c :: rw :: _ => negb (Nat.eqb c 1 && Nat.eqb rw 1)
+  | _ => false
+  end && Nat.eqb (nr r) 1 && Nat.eqb (nc r) 1.
+
 (* operations whose step theorem is proved *)
 Fixpoint covered (p : Prog) : bool :=
   match p with
@@ -24,7 +31,7 @@ Fixpoint covered (p : Prog) : bool :=
   | PBin BSub a b => covered a && covered b
   | PBin BMul a b => covered a && covered b
   | PBinT BMul a (APy _) => covered a
-  | PBinT BMul a (ARaw r) => covered a && scalar0b r
+  | PBinT BMul a (ARaw r) => covered a && (scalar0b r || rawmatb r)
   | PRBinT BMul (APy _) a => covered a
   | PRBinT BMul (ARaw r) a => covered a && scalar0b r
   | PDiv a (APy _) (APy _) => covered a
@@ -89,7 +96,9 @@ Fixpoint safe (p : Prog) : bool :=
       safe a &&
       match o, t, eval_alg a with
       | BMul, APy z, Ok x => safe_mulc_step x z
-      | BMul, ARaw r, Ok x => safe_mulc_step x (c0 r)
+      | BMul, ARaw r, Ok x =>
+          if scalar0b r then safe_mulc_step x (c0 r)
+          else negb (is_zero x) && negb (is_ident x) && Nat.eqb (nth 0 (bsh r) 0%nat) (cols x) && Nat.eqb (nth 1 (bsh r) 0%nat) (rows x)
       | _, _, _ => true
       end
   | PRBinT o t a =>
@@ -175,6 +184,36 @@ Proof.
   unfold of_raw, rmul, to_raw, zconst, mkraw. simpl. rewrite R1. simpl.
   apply BTeq_intro; simpl; try reflexivity.
   intros I i j _ _ _. unfold rval, c0. ub. rewrite ?R1. reflexivity.
+Qed.
+
+(* one multiplication step by a tensor with the operand's matrix sizes *)
+Lemma mul_rawmat_step x r0 r X D :
+  wf x -> rawmatb r0 = true -> is_zero x = false -> is_ident x = false ->
+  nth 0 (bsh r0) 0%nat = cols x -> nth 1 (bsh r0) 0%nat = rows x ->
+  alg_mul x (ARaw r0) = Ok r -> denote x == X -> dense_mul X (ARaw r0) = Ok D -> denote r == D.
+Proof.
+  intros W RM NZ NI EC ER HA H1 HD.
+  unfold rawmatb in RM. rewrite !andb_true_iff, !Nat.eqb_eq in RM. destruct RM as ((RM & N1) & N2).
+  destruct (bsh r0) as [|c [|rw bs]] eqn:EB; try discriminate. simpl in EC, ER. subst c rw.
+  rewrite negb_true_iff in RM.
+  assert (HM : mul_dispatch (alg_mul_constant x) x (ARaw r0) = Ok r) by (destruct x; simpl in NZ; try discriminate; exact HA).
+  unfold mul_dispatch in HM. ifd HM.
+  assert (NE : Nat.eqb (rnumel r0) 1 = false).
+  { unfold rnumel. rewrite EB. simpl. apply andb_false_iff in RM. apply Nat.eqb_neq. intros HN.
+    destruct RM as [RM|RM]; apply Nat.eqb_neq in RM; destruct (cols x), (rows x), (bnumel bs); simpl in *; try lia; nia. }
+  rewrite NE in HM. unfold rdim in HM. rewrite EB in HM. simpl in HM. rewrite RM in HM. simpl in HM.
+  assert (CB : bcompat (batch x) bs = true).
+  { unfold fullshape in Q. rewrite EB in Q. simpl in Q. rewrite !Nat.eqb_refl in Q. simpl in Q. exact Q. }
+  assert (EB' : bsh r0 = nc X :: nr X :: tl (tl (bsh r0))).
+  { rewrite EB. simpl. unfold cols, rows. rewrite (BTeq_nc _ _ H1), (BTeq_nr _ _ H1). reflexivity. }
+  unfold dense_mul, dense_ew in HD. simpl argval in HD. ifd HD. okinv HD.
+  eapply BTeq_trans; [apply (alg_mul_matrix_correct x (Dense (of_raw r0)) r W); try assumption; try reflexivity|].
+  - unfold rows. simpl. unfold of_raw. rewrite EB. reflexivity.
+  - unfold cols. simpl. unfold of_raw. rewrite EB. reflexivity.
+  - unfold batch at 2. simpl. unfold of_raw. rewrite EB. exact CB.
+  - eapply BTeq_trans; [|apply BTeq_sym; apply rmul_raw_mat; try assumption].
+    + apply dhad_eq; [exact H1|apply BTeq_refl| | |]; simpl; unfold of_raw; rewrite EB; simpl; try reflexivity. exact CB.
+    + rewrite EB. simpl. rewrite <- (BTeq_bsh _ _ H1). exact CB.
 Qed.
 
 Lemma guard_ok {A} x (k : result A) r : guard x k = Ok r -> wf x /\ k = Ok r.
@@ -271,11 +310,14 @@ Proof.
       rewrite E in HS. apply andb_true_iff in HS. destruct HS as (S1 & S2).
       binv HD. simpl in HD0. pose proof (IHp _ _ HC S1 E E0) as H1.
       eapply mul_py_step; eassumption.
-    + apply andb_true_iff in HC. destruct HC as (HC & SR). apply scalar0b_ok in SR.
+    + apply andb_true_iff in HC. destruct HC as (HC & SR).
       simpl in HA, HD, HS. binv HA. apply guard_ok in HA0. destruct HA0 as (W & HA0). simpl in HA0.
       rewrite E in HS. apply andb_true_iff in HS. destruct HS as (S1 & S2).
       binv HD. simpl in HD0. pose proof (IHp _ _ HC S1 E E0) as H1.
-      eapply mul_raw0_step; eassumption.
+      destruct (scalar0b r) eqn:S0.
+      * apply scalar0b_ok in S0. eapply mul_raw0_step; eassumption.
+      * simpl in SR. rewrite !andb_true_iff, !negb_true_iff, !Nat.eqb_eq in S2. destruct S2 as (((Z1 & Z2) & Z3) & Z4).
+        eapply mul_rawmat_step; eassumption.
   - (* python number / 0-d tensor * operator *)
     destruct o; try discriminate. destruct t; try discriminate.
     + simpl in HA, HD, HS. binv HA. apply guard_ok in HA0. destruct HA0 as (W & HA0). simpl in HA0.
